@@ -441,25 +441,32 @@ def Cand.toBio (r : Rec) (c : Cand) (num : Option Nat) : E (List Bio) :=
   if c.children.any (fun i => decide (i ≥ r.protos.length)) then throw "value-error"
   else (c.feat.toBio (candX r c num)).map fun b => [b]
 
+/-- `[int(num) for num in values]` -/
+def parseNums (l : List String) : E (List Int) :=
+  l.mapM fun s => match intOfStr s with | some i => pure i | none => throw "value-error"
+
 /-- `CandidateCluster.from_biopython(bio, record=r)` -/
-def Cand.fromBio (r : Rec) (b : Bio) : E Cand := do
-  let l := b.quals
-  let raw ← match Q.get? l "protoclusters" with
-    | some v => pure v
-    | none => throw "value-error"
-  let nums ← raw.mapM fun s => match intOfStr s with | some i => pure i | none => throw "value-error"
-  if nums.isEmpty then throw "value-error"
-  if maxList nums > r.protos.length then throw "value-error"
-  let l := Q.erase l "protoclusters"
-  let (kind, l) ← popReq l "kind" "KeyError"
-  if !kinds.contains kind then throw "value-error"
-  let smiles := (Q.get? l "SMILES").bind List.head?
-  let polymer := (Q.get? l "polymer").bind List.head?
-  if nums.any (· < 1) then throw "IndexError"
-  let children := nums.map fun n => (n - 1).toNat
-  let wrap : Option Int := if r.circular then some r.len else none
-  let loc ← connect (children.filterMap fun i => (r.protos[i]?).map (·.feat.loc)) wrap
-  pure ⟨⟨loc, "cand_cluster", [], [], true, none⟩, kind, children, smiles, polymer, wrap⟩
+def Cand.fromBio (r : Rec) (b : Bio) : E Cand :=
+  match Q.get? b.quals "protoclusters" with
+  | none => throw "value-error"
+  | some raw =>
+    match parseNums raw with
+    | .error e => .error e
+    | .ok nums =>
+      if nums.isEmpty then throw "value-error"
+      else if maxList nums > r.protos.length then throw "value-error"
+      else
+        match popReq (Q.erase b.quals "protoclusters") "kind" "KeyError" with
+        | .error e => .error e
+        | .ok (kind, l) =>
+          if !kinds.contains kind then throw "value-error"
+          else if nums.any (· < 1) then throw "IndexError"
+          else
+            let children := nums.map fun n => (n - 1).toNat
+            let wrap : Option Int := if r.circular then some r.len else none
+            (connect (children.filterMap fun i => (r.protos[i]?).map (·.feat.loc)) wrap).map fun loc =>
+              ⟨⟨loc, "cand_cluster", [], [], true, none⟩, kind, children,
+               (Q.get? l "SMILES").bind List.head?, (Q.get? l "polymer").bind List.head?, wrap⟩
 
 def childCands (r : Rec) (g : Reg) : List Cand := g.cands.filterMap (r.cands[·]?)
 def childSubs (r : Rec) (g : Reg) : List Sub := g.subs.filterMap (r.subs[·]?)
@@ -495,9 +502,6 @@ def Reg.toBio (r : Rec) (g : Reg) (num : Option Nat) : E (List Bio) :=
     throw "value-error"
   else (g.feat.toBio (regX r g num)).map fun b => [b]
 
-def parseNums (l : List String) : E (List Int) :=
-  l.mapM fun s => match intOfStr s with | some i => pure i | none => throw "value-error"
-
 /-- `Region.__init__`'s location -/
 def regionLoc (locs : List Loc) : E Loc :=
   let wrap : Option Int :=
@@ -505,19 +509,23 @@ def regionLoc (locs : List Loc) : E Loc :=
   connect locs wrap
 
 /-- `Region.from_biopython(bio, record=r)` -/
-def Reg.fromBio (r : Rec) (b : Bio) : E Reg := do
-  let cn ← parseNums ((Q.get? b.quals "candidate_cluster_numbers").getD [])
-  let sn ← parseNums ((Q.get? b.quals "subregion_numbers").getD [])
-  if !cn.isEmpty && maxList cn > r.cands.length then throw "value-error"
-  if !sn.isEmpty && maxList sn > r.subs.length then throw "value-error"
-  if cn.any (· < 1) || sn.any (· < 1) then throw "IndexError"
-  if cn.isEmpty && sn.isEmpty then throw "value-error"
-  let cands := cn.map fun n => (n - 1).toNat
-  let subs := sn.map fun n => (n - 1).toNat
-  let locs := (subs.filterMap fun i => (r.subs[i]?).map (·.feat.loc)) ++
-              (cands.filterMap fun i => (r.cands[i]?).map (·.feat.loc))
-  let loc ← regionLoc locs
-  pure ⟨⟨loc, "region", [], [], true, none⟩, cands, subs⟩
+def Reg.fromBio (r : Rec) (b : Bio) : E Reg :=
+  match parseNums ((Q.get? b.quals "candidate_cluster_numbers").getD []) with
+  | .error e => .error e
+  | .ok cn =>
+    match parseNums ((Q.get? b.quals "subregion_numbers").getD []) with
+    | .error e => .error e
+    | .ok sn =>
+      if !cn.isEmpty && maxList cn > r.cands.length then throw "value-error"
+      else if !sn.isEmpty && maxList sn > r.subs.length then throw "value-error"
+      else if cn.any (· < 1) || sn.any (· < 1) then throw "IndexError"
+      else if cn.isEmpty && sn.isEmpty then throw "value-error"
+      else
+        let cands := cn.map fun n => (n - 1).toNat
+        let subs := sn.map fun n => (n - 1).toNat
+        (regionLoc ((subs.filterMap fun i => (r.subs[i]?).map (·.feat.loc)) ++
+                    (cands.filterMap fun i => (r.cands[i]?).map (·.feat.loc)))).map fun loc =>
+          ⟨⟨loc, "region", [], [], true, none⟩, cands, subs⟩
 
 /-! ### sorting and bisection (CPython) -/
 
